@@ -209,3 +209,8 @@ func init() {
 		return p.e.strOf(netIPString(raw))
 	}
 }
+
+func init() {
+	externals["github.com/hashicorp/go-msgpack/v2/codec.NewDecoder"] = func(p *Path, fr *frame, a []Value) Value { return nilPtr }
+	externals["github.com/hashicorp/go-msgpack/v2/codec.NewDecoderBytes"] = func(p *Path, fr *frame, a []Value) Value { return nilPtr }
+}
